@@ -16,19 +16,54 @@ def clamp(v):
     return max(-LIM, min(LIM, v))
 
 
-class CountMon(mon.Monitor):
-    """state = (#calls of `call_def` so far) - (sum of increments of the counter field)."""
-    init = (0,)
+def pure_cond(c):
+    """a condition built only from locals, fields, literals and operators (re-evaluating it gives the same value
+    unless one of its variables is assigned in between)"""
+    return not tast.contains(c, lambda z: z.get("k") in ("MethodCall", "Call", "Index", "LetExpr", "Closure", "Block", "If", "Match"))
 
-    def __init__(self, rule, fn, call_def, field, summaries):
+
+def cond_ids(c):
+    return tuple(sorted({p["id"] for p in tast.find(c, lambda z: z.get("k") == "Path" and z.get("res") == "local")}))
+
+
+def lit_of_block(b):
+    if b is None:
+        return None
+    if b.get("k") == "Lit":
+        return mon.is_lit_int(b)
+    if b.get("k") == "Block" and not b.get("stmts") and b.get("tail") is not None:
+        return lit_of_block(b["tail"])
+    return None
+
+
+class CountMon(mon.Monitor):
+    """state = (delta, pending, memo):  delta = (#calls of `call_def` so far) - (sum of increments of the counter field);
+    pending = literal selected by an `if`-expression that is the right-hand side of an increment;
+    memo = truth values of pure conditions already decided on this path (the same condition tested twice is correlated)."""
+    init = ((0, None, frozenset()),)
+
+    def __init__(self, rule, fn, call_def, field, summaries, body=None):
         super().__init__()
         self.rule, self.fn, self.call_def, self.field, self.summaries = rule, fn, call_def, field, summaries
         self.nonliteral = []
         self.loops = {}
-        self.n_calls = 0
-        self.n_incr = 0
         self._call_nodes = set()
         self._incr_nodes = set()
+        self.if_rhs = {}
+        self.repeated = set()
+        if body is not None:
+            seen = {}
+            for n in tast.find(body["body"], lambda z: z.get("k") == "If" and pure_cond(z["cond"])):
+                key = (tast.render(n["cond"]), cond_ids(n["cond"]))
+                seen[key] = seen.get(key, 0) + 1
+            # only conditions tested more than once can be correlated; remembering the others would only blow up the state space
+            self.repeated = {k for k, c in seen.items() if c >= 2}
+            for n in tast.find(body["body"], lambda z: z.get("k") == "AssignOp" and z["l"].get("k") == "Field" and (z["l"].get("fdef") or "") == field
+                               and z["r"].get("k") == "If"):
+                r = n["r"]
+                a_, b_ = lit_of_block(r["then"]), lit_of_block(r.get("else"))
+                if a_ is not None and b_ is not None:
+                    self.if_rhs[id(r)] = (a_, b_)
 
     def loop_name(self, n):
         if id(n) not in self.loops:
@@ -40,35 +75,56 @@ class CountMon(mon.Monitor):
         if n.get("k") in ("Call", "MethodCall"):
             return "call %s @%s" % ((n.get("def") or "?").split("::")[-1], n.get("sp"))
         if n.get("k") == "AssignOp":
-            return "%s @%s" % (tast.render(n), n.get("sp"))
+            return "%s @%s" % (tast.render(n)[:60], n.get("sp"))
         return super().describe(ev)
 
     def check(self, st, where, node):
-        d = st
+        d = st[0]
         if d != 0:
             what = ("%d call(s) of %s not counted in %s" % (d, self.call_def, self.field)) if d > 0 else \
                    ("%s incremented %d time(s) more than %s was called" % (self.field, -d, self.call_def))
+            calls = [t for t in self.cur_trail if t.startswith("call") or "AddAssign" in t or "+=" in t]
             self.violate("%s:%s:%s:%+d" % (self.rule, self.fn, where, d),
-                         "%s at %s; path: %s" % (what, where, " -> ".join(self.cur_trail[-6:])), node, self.cur_trail)
-        return (0,)
+                         "%s at %s; path: %s" % (what, where, " -> ".join(calls[-6:])), node, self.cur_trail)
+        return ((0, None, st[2]),)
 
     def step(self, st, ev):
         kind, n = ev[0], ev[1]
+        d, pend, memo = st
+        if kind in ("then", "else") and n.get("k") == "If":
+            truth = kind == "then"
+            if id(n) in self.if_rhs:
+                pend = self.if_rhs[id(n)][0 if truth else 1]
+            c = n["cond"]
+            key = (tast.render(c), cond_ids(c)) if pure_cond(c) else None
+            if key is not None and key in self.repeated:
+                for (k2, t2) in memo:
+                    if k2 == key and t2 != truth:
+                        return ()      # the same condition already went the other way on this path
+                memo = memo | {(key, truth)}
+            return ((d, pend, memo),)
         if kind == "node":
             k = n.get("k")
+            if k in ("Assign", "AssignOp") and n["l"].get("k") == "Path" and n["l"].get("res") == "local":
+                lid = n["l"]["id"]
+                memo2 = frozenset(e for e in memo if lid not in e[0][1])
+                if memo2 != memo:
+                    memo = memo2
+                    st = (d, pend, memo)
             if k in ("MethodCall", "Call"):
-                d = n.get("def")
-                if d == self.call_def:
-                    if id(n) not in self._call_nodes:
-                        self._call_nodes.add(id(n))
-                    return (clamp(st + 1),)
-                if d in self.summaries and self.summaries[d]:
-                    return (clamp(st + self.summaries[d]),)
+                df = n.get("def")
+                if df == self.call_def:
+                    self._call_nodes.add(id(n))
+                    return ((clamp(d + 1), pend, memo),)
+                if df in self.summaries and self.summaries[df]:
+                    return ((clamp(d + self.summaries[df]), pend, memo),)
             elif k == "AssignOp" and n["l"].get("k") == "Field" and (n["l"].get("fdef") or "") == self.field:
                 self._incr_nodes.add(id(n))
                 v = mon.is_lit_int(n["r"])
+                if v is None and id(n["r"]) in self.if_rhs and pend is not None:
+                    v = pend
                 if n["op"] in ("Add", "AddAssign") and v is not None:
-                    return (clamp(st - v),)
+                    return ((clamp(d - v), None, memo),)
                 self.nonliteral.append(n)
                 return (st,)
             elif k == "Assign" and n["l"].get("k") == "Field" and (n["l"].get("fdef") or "") == self.field:
@@ -86,6 +142,7 @@ class CountMon(mon.Monitor):
 
 class SummaryMon(mon.Monitor):
     init = (0,)
+    # states are plain ints here
 
     def __init__(self, call_def):
         super().__init__()
@@ -129,7 +186,7 @@ def count_rule(rep, f, cg, rule, call_def, field, floor_calls):
         body = f.body(fn)
         rep.fn(fn)
         sums = summaries_for(f, cg, fn, call_def, rep, rule)
-        m = CountMon(rule, fn, call_def, field, sums)
+        m = CountMon(rule, fn, call_def, field, sums, body)
         flow, frame = mon.Runner(m).run_fn(body)
         ncalls = len(tast.calls(body["body"], call_def))
         total_calls += ncalls
